@@ -323,9 +323,21 @@ func ProgRun(args common.Args, out *common.Out) error {
 	}
 	common.ParallelFor(len(behs), args.Int("par", 16), func(i int) {
 		for _, b := range builders {
+			if b == "r1cs" && usesPlonkAPI(behs[i].Prog) {
+				continue // the PLONK-specific calls exist in the sparse builder only
+			}
 			r := progRunOne(&behs[i], field, b, opts, checkEvery)
 			out.Emit(r)
 		}
 	})
 	return nil
+}
+
+func usesPlonkAPI(p []Instr) bool {
+	for _, ins := range p {
+		if ins.Op == "PlonkExpr" || ins.Op == "PlonkGate" {
+			return true
+		}
+	}
+	return false
 }
